@@ -47,11 +47,11 @@ def design_mc(ctx):
     cfg = tlc.write_cfg(os.path.join(ctx.workdir, "mcsplit.cfg"), spec="Spec",
                         consts={"NPos": 8 if q else 9, "MaxBlocks": 3 if q else 4},
                         invariants=["TodoSorted", "PiecesOfBlock", "OutDisjoint", "OutLeftOfTodo", "SumBound", "NonEmptyOut",
-                                    "WholeWhenFree"],
+                                    "WholeWhenFree", "CutOnlyWhereOverlapping"],
                         properties=["Decreases"])
     r = tlc.model_check("MC_StatsSplit", cfg=cfg, workers=8, timeout=3000)
     r["what"] = ("MC_StatsSplit (get_nonoverlapping_blocks as a state machine: pieces pairwise disjoint, inside their block, "
-                 "sum of lengths <= covered span, loop terminates) over all families of <= %d blocks on %d positions"
+                 "sum of lengths <= covered span, cut only where another block overlaps, loop terminates) over all families of <= %d blocks on %d positions"
                  % ((3, 8) if q else (4, 9)))
     return [r]
 
